@@ -136,7 +136,7 @@ func TestC02(t *testing.T) {
 	thorough := os.Getenv("VERIF_TIER") == "thorough"
 	rec.Rule("valid sealed tuples (C03 generator); per tuple: positive control, then single-bit flips of the ClientHello message body (quick: 96 sampled bits; thorough: every bit), header flips (tolerant), and the substitutions wrong key (same/other id), wrong info (config differing in public name / suites / id with the same private key), suite named != suite used, wrong config id, enc/payload truncated/extended/swapped, AAD over a different session id. Oracle: never accepted; fall-back byte-exact when the mutated message is still well-formed. distinct = (hello hash, mutation); every mutation is non-trivial")
 	rec.Mandatory("flip:random", "flip:session_id", "flip:cipher_suites", "flip:ext_header", "flip:sni_body", "flip:ech_suite", "flip:ech_config_id", "flip:ech_enc", "flip:ech_payload", "flip:versions_body",
-		"sub:wrong_key_same_id", "sub:wrong_key_other_id", "sub:wrong_info_public_name", "sub:wrong_info_suites", "sub:suite_mismatch", "sub:wrong_config_id", "sub:enc_truncated", "sub:payload_truncated", "sub:payload_extended", "sub:payload_swapped", "sub:aad_other_sid")
+		"sub:wrong_key_same_id", "sub:wrong_key_other_id", "sub:wrong_info_public_name", "sub:wrong_info_suites", "sub:suite_mismatch", "sub:wrong_config_id", "sub:enc_truncated", "sub:payload_truncated", "sub:payload_extended", "sub:payload_swapped", "sub:aad_other_sid", "sub:suite_not_offered")
 	rapid.Check(t, func(t *rapid.T) {
 		sc := drawSealed(t, false)
 		hh := sha256.Sum256(sc.OuterMsg)
@@ -311,6 +311,35 @@ func TestC02(t *testing.T) {
 			t.Fatalf("harness: %v", err)
 		}
 		one("sub:aad_other_sid", "the AAD used by the client differs from the hello sent (session id length byte)", hello.Record(22, sc.RecVer, m3))
+		// suite that the server's config does not offer, although its KDF and its AEAD
+		// each appear in some offered suite: config [(1,a),(2,b)], client names (1,b)
+		{
+			a, b := hello.AllSuites[uniform(t, "cross_a", 3)].AEAD, uint16(0)
+			for _, s := range hello.AllSuites {
+				if s.AEAD != a {
+					b = s.AEAD
+				}
+			}
+			ck, _ := hello.NewKey(sc.Key.Priv.Bytes(), sc.Key.ID, sc.Key.PublicName, []hello.Suite{{KDF: 1, AEAD: a}, {KDF: 2, AEAD: b}})
+			slx, err := hello.NewSealer(ck.Config, ck.Priv.PublicKey().Bytes(), hello.Suite{KDF: 1, AEAD: b}, ck.ID)
+			if err != nil {
+				t.Fatalf("harness: %v", err)
+			}
+			ox := sc.Tuple.Outer.Clone()
+			mx, err := slx.SealOuter(ox, encoded, true)
+			if err != nil {
+				t.Fatalf("harness: %v", err)
+			}
+			withKeys([]*hello.Key{ck}, "sub:suite_not_offered", fmt.Sprintf("the client used suite (1,%d) but the config offers only (1,%d) and (2,%d)", b, a, b), hello.Record(22, sc.RecVer, mx))
+			// control: the offered suite (1,a) is accepted with the same key
+			sly, _ := hello.NewSealer(ck.Config, ck.Priv.PublicKey().Bytes(), hello.Suite{KDF: 1, AEAD: a}, ck.ID)
+			oy := sc.Tuple.Outer.Clone()
+			my, _ := sly.SealOuter(oy, encoded, true)
+			cy, err := newConn(context.Background(), wire.New(hello.Record(22, sc.RecVer, my), io.EOF), echKeys(ck))
+			if err != nil || !cy.ECHAccepted() {
+				ev.Violation(t, "C02", map[string]any{"keys": keysReplay([]*hello.Key{ck}), "client_stream": hx(hello.Record(22, sc.RecVer, my)), "expect": "accept_exact", "want_inner_msg": hx(sc.WantInner)}, "hello sealed with an offered suite of a two-KDF config is not accepted: %v", err)
+			}
+		}
 		// AAD without zeroed payload (client forgot to zero = AAD includes garbage)
 		sl4, _ := hello.NewSealer(sc.Key.Config, sc.Key.Priv.PublicKey().Bytes(), sc.Suite, sc.Key.ID)
 		o4 := sc.Tuple.Outer.Clone()
